@@ -115,16 +115,17 @@ Definition view_dt (v : dt) (p : pack) : dt :=
 
 (* netcdf_indexer._unpack: the data type of the array that is returned.
    "data * scale_factor + add_offset" (numpy promotion, one operation after
-   the other) unless the scale is one and the offset zero, in which case the
-   data are cast to the type of the scale_factor (of the add_offset when there
-   is no scale_factor). *)
+   the other) unless the scale is one and the offset zero: with both attributes
+   present the data are then cast to the type of the scale_factor alone; with
+   only one attribute present (repository commit 0554e88) they are cast to the
+   type the arithmetic would have given, numpy.result_type(data, attribute). *)
 Definition realised_dt (v : dt) (p : pack) : dt :=
   let v' := view_dt v p in
   match p_scale p, p_offset p with
   | Some (ts, s), Some (ta, a) =>
     if negb (a =? 0) || negb (s =? 1) then promote (promote v' ts) ta else ts
-  | Some (ts, s), None => if negb (s =? 1) then promote v' ts else ts
-  | None, Some (ta, a) => if negb (a =? 0) then promote v' ta else ta
+  | Some (ts, s), None => if negb (s =? 1) then promote v' ts else promote v' ts
+  | None, Some (ta, a) => if negb (a =? 0) then promote v' ta else promote v' ta
   | None, None => v'
   end.
 
@@ -146,8 +147,8 @@ Definition unpack_z (v : dt) (p : pack) (x : Z) : Z :=
     if negb (a =? 0) || negb (s =? 1)
     then let d1 := promote v' ts in wrap (promote d1 ta) (wrap d1 (x' * s) + a)
     else wrap ts x'
-  | Some (ts, s), None => if negb (s =? 1) then wrap (promote v' ts) (x' * s) else wrap ts x'
-  | None, Some (ta, a) => if negb (a =? 0) then wrap (promote v' ta) (x' + a) else wrap ta x'
+  | Some (ts, s), None => if negb (s =? 1) then wrap (promote v' ts) (x' * s) else wrap (promote v' ts) x'
+  | None, Some (ta, a) => if negb (a =? 0) then wrap (promote v' ta) (x' + a) else wrap (promote v' ta) x'
   | None, None => x'
   end.
 
